@@ -13,10 +13,20 @@
  *   gz <level> <delta> <input>   carquet_gzip_compress / _decompress (no reference: zlib is the codec)
  *   zs <level> <delta> <input>   carquet_zstd_compress / _decompress
  *   slen <stream>                carquet_snappy_get_uncompressed_length -> "OK n" | "ERR code"
+ *   hist <codec> <k> <x0>..<xk-1> <steps>   a HISTORY of calls on this thread.  codec: snappy|lz4|gzip|zstd.
+ *                                steps, comma separated:  c<i>:<level>:<cap>  compress input i into exactly <cap>
+ *                                bytes (cap = b, b+N, b-N relative to the bound, or an absolute number), a
+ *                                success is verified at once: carquet decompress into exactly |x_i| bytes and the
+ *                                system library (libsnappy / liblz4 / zlib inflate / ZSTD_decompress) as
+ *                                independent decoder;  t<i>  carquet decompress of the first half of the last
+ *                                successful output of input i.
+ *                                -> one token per step: "OK:clen:cap:bound:rt:lib" | "ERR:code:cap:bound" | "T:ERR" | "T:OK:eq" | "T:none"
  */
 #include "hcommon.h"
 #include <snappy-c.h>
 #include <lz4.h>
+#include <zlib.h>
+#include <zstd.h>
 
 extern int carquet_snappy_decompress(const uint8_t*, size_t, uint8_t*, size_t, size_t*);
 extern int carquet_snappy_compress(const uint8_t*, size_t, uint8_t*, size_t, size_t*);
@@ -108,6 +118,88 @@ static void comp_case(int codec /*0 snappy 1 lz4 2 gzip 3 zstd*/, int level, lon
     free(xb); free(cb); free(sb); free(db);
 }
 
+
+static size_t codec_bound(int codec, size_t n) {
+    return codec == 0 ? carquet_snappy_compress_bound(n) : codec == 1 ? carquet_lz4_compress_bound(n)
+         : codec == 2 ? carquet_gzip_compress_bound(n) : carquet_zstd_compress_bound(n);
+}
+static int codec_compress(int codec, const uint8_t* x, size_t n, uint8_t* c, size_t cap, size_t* clen, int level) {
+    return codec == 0 ? carquet_snappy_compress(x, n, c, cap, clen) : codec == 1 ? carquet_lz4_compress(x, n, c, cap, clen)
+         : codec == 2 ? carquet_gzip_compress(x, n, c, cap, clen, level) : carquet_zstd_compress(x, n, c, cap, clen, level);
+}
+static int codec_decompress(int codec, const uint8_t* s, size_t n, uint8_t* d, size_t cap, size_t* out) {
+    return codec == 0 ? carquet_snappy_decompress(s, n, d, cap, out) : codec == 1 ? carquet_lz4_decompress(s, n, d, cap, out)
+         : codec == 2 ? carquet_gzip_decompress(s, n, d, cap, out) : carquet_zstd_decompress(s, n, d, cap, out);
+}
+/* the system library as an independent decoder of carquet's output */
+static int lib_decodes(int codec, const uint8_t* s, size_t clen, const uint8_t* x, size_t n) {
+    uint8_t* d2 = xalloc(n); int ok = 0;
+    if (codec == 0) { size_t ol = n; ok = (snappy_uncompress((const char*)s, clen, (char*)d2, &ol) == SNAPPY_OK && ol == n); }
+    else if (codec == 1) { int k = LZ4_decompress_safe((const char*)s, (char*)d2, (int)clen, (int)n); ok = (k >= 0 && (size_t)k == n); }
+    else if (codec == 2) {
+        z_stream z; memset(&z, 0, sizeof z);
+        if (inflateInit2(&z, 15 + 16) == Z_OK) {
+            z.next_in = (Bytef*)s; z.avail_in = (uInt)clen; z.next_out = d2; z.avail_out = (uInt)n;
+            int r = inflate(&z, Z_FINISH); ok = (r == Z_STREAM_END && z.total_out == n && z.avail_in == 0); inflateEnd(&z);
+        }
+    } else { size_t r = ZSTD_decompress(d2, n, s, clen); ok = (!ZSTD_isError(r) && r == n); }
+    if (ok && n) ok = (memcmp(d2, x, n) == 0);
+    free(d2); return ok;
+}
+
+#define H_MAXIN 8
+static void hist_case(void) {
+    const char* cn = h_tok[1];
+    int codec = !strcmp(cn, "snappy") ? 0 : !strcmp(cn, "lz4") ? 1 : !strcmp(cn, "gzip") ? 2 : !strcmp(cn, "zstd") ? 3 : -1;
+    int k = atoi(h_tok[2]);
+    if (codec < 0 || k < 1 || k > H_MAXIN || h_ntok != 4 + k) { puts("ERR bad-hist"); return; }
+    uint8_t* x[H_MAXIN]; void* xb[H_MAXIN]; size_t n[H_MAXIN]; uint8_t* last[H_MAXIN]; void* lastb[H_MAXIN]; size_t lastn[H_MAXIN];
+    for (int i = 0; i < k; i++) {
+        const char* hex = h_tok[3 + i];
+        size_t hn = (hex[0] == '-' && hex[1] == 0) ? 0 : strlen(hex) / 2;
+        x[i] = exact(hn, &xb[i]); n[i] = hn; last[i] = NULL; lastb[i] = NULL; lastn[i] = 0;
+        for (size_t j = 0; j < hn; j++) x[i][j] = (uint8_t)(h_hexval(hex[2*j]) * 16 + h_hexval(hex[2*j+1]));
+    }
+    char* steps = h_tok[3 + k]; int first = 1;
+    for (char* st = strtok(steps, ","); st; st = strtok(NULL, ",")) {
+        if (!first) putchar(' ');
+        first = 0;
+        if (st[0] == 'c') {
+            int i = 0, level = 0; char capspec[64] = "b";
+            if (sscanf(st + 1, "%d:%d:%63s", &i, &level, capspec) != 3 || i < 0 || i >= k) { printf("BAD"); continue; }
+            size_t bound = codec_bound(codec, n[i]); long capl;
+            if (capspec[0] == 'b') capl = (long)bound + (capspec[1] ? atol(capspec + 1) : 0); else capl = atol(capspec);
+            if (capl < 0) capl = 0;
+            size_t cap = (size_t)capl; void* cb; uint8_t* c = exact(cap, &cb); size_t clen = (size_t)-1;
+            int r = codec_compress(codec, x[i], n[i], c, cap, &clen, level);
+            if (r != 0) printf("ERR:%d:%zu:%zu", r, cap, bound);
+            else if (clen > cap) printf("OK:%zu:%zu:%zu:0:0", clen, cap, bound);
+            else {
+                void* sb; uint8_t* s = exact(clen, &sb); memcpy(s, c, clen);
+                void* db; uint8_t* d = exact(n[i], &db); size_t out = (size_t)-1;
+                int r2 = codec_decompress(codec, s, clen, d, n[i], &out);
+                int rt = (r2 == 0 && out == n[i] && (n[i] == 0 || memcmp(d, x[i], n[i]) == 0));
+                int lib = lib_decodes(codec, s, clen, x[i], n[i]);
+                printf("OK:%zu:%zu:%zu:%d:%d", clen, cap, bound, rt, lib);
+                free(db);
+                if (lastb[i]) free(lastb[i]);
+                last[i] = s; lastb[i] = sb; lastn[i] = clen;
+            }
+            free(cb);
+        } else if (st[0] == 't') {
+            int i = atoi(st + 1);
+            if (i < 0 || i >= k || !last[i]) { printf("T:none"); continue; }
+            size_t hn = lastn[i] / 2; void* sb; uint8_t* s = exact(hn, &sb); memcpy(s, last[i], hn);
+            void* db; uint8_t* d = exact(n[i], &db); size_t out = (size_t)-1;
+            int r = codec_decompress(codec, s, hn, d, n[i], &out);
+            if (r != 0) printf("T:ERR"); else printf("T:OK:%d", (out == n[i] && (n[i] == 0 || memcmp(d, x[i], n[i]) == 0)));
+            free(sb); free(db);
+        } else printf("BAD");
+    }
+    putchar('\n');
+    for (int i = 0; i < k; i++) { free(xb[i]); if (lastb[i]) free(lastb[i]); }
+}
+
 int main(void) {
     while (h_readline()) {
         h_split();
@@ -118,6 +210,7 @@ int main(void) {
         else if (!strcmp(h_tok[0], "lcomp") && h_ntok == 3) comp_case(1, 0, atol(h_tok[1]), h_tok[2]);
         else if (!strcmp(h_tok[0], "gz") && h_ntok == 4) comp_case(2, atoi(h_tok[1]), atol(h_tok[2]), h_tok[3]);
         else if (!strcmp(h_tok[0], "zs") && h_ntok == 4) comp_case(3, atoi(h_tok[1]), atol(h_tok[2]), h_tok[3]);
+        else if (!strcmp(h_tok[0], "hist") && h_ntok >= 5) hist_case();
         else if (!strcmp(h_tok[0], "slen") && h_ntok == 2) {
             size_t n; void* b; uint8_t* p = h_unhex(h_tok[1], &n, 0, &b); size_t len = 0;
             int r = carquet_snappy_get_uncompressed_length(p, n, &len);
